@@ -67,15 +67,26 @@ def compare(o, m, aspects):
     if gc != mc:
         return ["class(%s/%s)" % (gc, mc)]
     if "err" in aspects and gc in ("runtime", "internal"):
-        if o["Err"].encode("latin1", "replace").hex() != m.get("err") and o["Err"].encode("utf8").hex() != m.get("err"):
+        # position of the error (line:col), not the wording
+        me = bytes.fromhex(m.get("err", "")).decode("utf8", "replace")
+        pa, pb = re.search(r"line (\d+:\d+)", o["Err"]), re.search(r"line (\d+:\d+)", me)
+        if (pa and pa.group(1)) != (pb and pb.group(1)):
+            diffs.append("errpos")
+    if "errtext" in aspects and gc in ("runtime", "internal"):
+        if o["Err"].encode("utf8").hex() != m.get("err"):
             diffs.append("errtext")
     if "out" in aspects and o["Out"] != m.get("out", ""):
         diffs.append("out")
+    if "outws" in aspects:
+        # introspection text: compared modulo the amount of horizontal white space (column widths are not a property)
+        norm = lambda h: re.sub(rb"[ \t]+", b" ", bytes.fromhex(h))
+        if norm(o["Out"]) != norm(m.get("out", "")):
+            diffs.append("out")
     if "log" in aspects:
         gl, ml = bytes.fromhex(o["Log"]), bytes.fromhex(m.get("log", ""))
         if diag_proj(gl) != diag_proj(ml):
             diffs.append("diag-positions")
-        elif not has_lex_msg(gl) and gl != ml:
+        elif "logtext" in aspects and not has_lex_msg(gl) and gl != ml:
             diffs.append("log-text")
     if gc != "parse":
         for k, gk in (("blocks", "Blocks"), ("binding", "Binding"), ("parts", "Parts")):
